@@ -198,6 +198,9 @@ partial def event (sm : Sim) (ev : String) (nested : Bool := false) : Sim :=
     | ["adv", dt] =>
       ({ sm with w := { sm.w with st := { sm.w.st with now := sm.w.st.now + dt.toNat?.getD 0 } } }).settle
     | ["tick"] => sm.settle
+    | ["mark", _] => sm
+    | ["hold", a, v] =>
+      ({ sm with w := { sm.w with st := sm.w.st.modApp (a.toNat?.getD 0) fun x => { x with held := v == "1" } } }).settle
     | ["ans", a, idx, rc] =>
       let ai := a.toNat?.getD 0
       let reqs := (sm.w.st.appRequests.filter (·.1 == ai)).map (·.2)
@@ -236,7 +239,10 @@ partial def event (sm : Sim) (ev : String) (nested : Bool := false) : Sim :=
         sm.settle
     | ["outcome", a, o] =>
       let ai := a.toNat?.getD 0
-      { sm with w := { sm.w with st := sm.w.st.modApp ai fun x => { x with raiseOnRequest := o == "raise" } } }
+      { sm with w := { sm.w with st := sm.w.st.modApp ai fun x => { x with raiseOnRequest := o == "raise", outcome := o } } }
+    | "handler" :: rest =>
+      let k := match rest with | x :: _ => x.toNat?.getD 0 | [] => 0
+      ({ sm with w := { sm.w with st := runHandler sm.infoOf sm.w.st k } }).flushOuts.settle
     | "stop" :: force :: timeout :: rest =>
       let wev := rest.map fun x => x.replace "_" " "
       if !sm.w.st.started then { sm with lines := sm.lines ++ ["RAISE stop RuntimeError"] }
